@@ -13,6 +13,8 @@
    3. `left_out_waits_for_start`: a SubsetError leads to waiting for a start message, which is then accepted from any
       sender (`runWait none`), and no fail message can abort that wait.
    4. `unrecognised_failure_ends_session`, `non_retryable_never_retried`.
+   5. `second_attempt_clean`: the composition (classification → election → follow / announce) for the intended election
+      rule; excluded point `self_culprit_point`. `asFound_never_recognises_pool_errors`: the defect as found.
   Interpretation (stated, not hidden): the culprit of a CommunicationError is "nobody" — `handleError` retries with an
   empty exclusion list although the error value may name a peer (monitorSigning raises it without one).
   Partial / assumed: ambiguous trees (typed errors of two different kinds at once) are classified by source order of
@@ -290,6 +292,87 @@ theorem listed_election_follows_no_culprit (key : α → Nat) (self : α) (holde
       · exact hr'
       · exact hself
     · simpa [bullyElectedListed, hr] using hself
+
+/-- on listed claimants (and without one) the election rule as written is the intended one -/
+theorem bullyElected_listed (key : α → Nat) (self : α) (cands : List α) (claimant : Option α)
+    (h : ∀ r, claimant = some r → r ∈ cands) :
+    bullyElected key self cands claimant = bullyElectedListed key self cands claimant := by
+  cases claimant with
+  | none => simp [bullyElected, bullyElectedListed]
+  | some r => simp [bullyElectedListed, h r rfl]
+
+/-- **C11-2 (the second attempt as a whole).** A retryable process failed with an unambiguous retried cause `k` on a
+    relayer that holds a key share and is not itself a culprit. Then, whoever claims coordination and whatever ready
+    messages arrive: an election is started, its candidates are key holders and none is a culprit, and the relayer
+    either follows a coordinator that is no culprit, or coordinates itself and announces a subset that satisfies C07's
+    clause and contains no culprit (or is still collecting ready messages). It never gives up and never just waits. -/
+theorem second_attempt_clean (key : α → Nat) (self : α) (t : Nat) (holders : List α) (e : Err α) (k : Class α)
+    (hk : intended e = some k) (hr : Retried k) (hself : self ∈ holders) (hnc : self ∉ culprits k)
+    (claimant : Option α) (arrivals : List α) :
+    ∃ cs, (secondAttempt bullyElectedListed key self t holders e true claimant arrivals).election = some cs ∧
+      (∀ c ∈ cs, c ∈ holders ∧ c ∉ culprits k) ∧
+      (match (secondAttempt bullyElectedListed key self t holders e true claimant arrivals).outcome with
+        | .follows c => c ∉ culprits k
+        | .announces S => SubsetOk ⟨self, holders, t, culprits k⟩ arrivals S ∧ ∀ c ∈ culprits k, c ∉ S
+        | .neverReady => True
+        | .ended => False
+        | .idle => False) := by
+  obtain ⟨haf, hcand, hhold, hsub⟩ := retry_without_culprits e k hk hr holders
+  unfold secondAttempt
+  rw [haf]
+  refine ⟨_, rfl, ?_, ?_⟩
+  · intro c hc
+    have hc' := (sortDesc_perm key _).mem_iff.1 hc
+    exact ⟨hhold c hc', fun hcul => hcand c hcul hc'⟩
+  · by_cases hel : bullyElectedListed key self (nextCandidates holders (culprits k)) claimant = self
+    · have hselfc : self ∈ nextCandidates holders (culprits k) := by
+        simp only [nextCandidates, excludePeers, List.mem_filter, decide_eq_true_eq]; exact ⟨hself, hnc⟩
+      simp only [hel, if_true]
+      cases hi : initiate key ⟨self, holders, t, culprits k⟩ arrivals with
+      | none => simp
+      | some r =>
+        obtain ⟨n, S⟩ := r
+        exact hsub key self t arrivals n S hselfc hi
+    · simp only [hel, if_false]
+      exact listed_election_follows_no_culprit key self holders (culprits k) claimant hnc
+
+example : secondAttempt bullyElectedListed (fun n : Nat => n) 0 1 [0, 1, 2, 3] (Err.wrap (.wrap (.tss [3] true))) true none [3, 1]
+    = ⟨some [2, 1, 0], .announces [1, 0]⟩ ∧
+  secondAttempt bullyElectedListed (fun n : Nat => n) 0 1 [0, 1, 2, 3] (Err.wrap (.wrap (.tss [3] true))) true (some 2) [3, 1]
+    = ⟨some [2, 1, 0], .follows 2⟩ := by decide
+
+/-- excluded point of `second_attempt_clean` (`self ∉ culprits`): a relayer whose own process names it as the culprit
+    still wins its own (silent) election and announces a subset containing itself -/
+theorem self_culprit_point :
+    secondAttempt bullyElectedListed (fun n : Nat => n) 0 1 [0, 1, 2] (Err.wrap (.tss [0] true)) true none [1]
+      = ⟨some [2, 1], .announces [1, 0]⟩ := by decide
+
+omit [DecidableEq α] in
+/-- **the defect as found** (repaired by `fix: classify failed tss attempts with errors.As`): whatever a conc pool
+    returns is a join node, which the type switch on the outermost value never recognises — no failure of a pooled
+    attempt was ever retried, for any cause. -/
+theorem asFound_never_recognises_pool_errors (errs : List (Err α)) (r : Err α) (h : poolWait errs = some r) :
+    classifyAsFound r = .unknown := by
+  have hfold : ∀ (l : List (Err α)) (a x : Err α), (a = .wrap x ∨ ∃ y z, a = .pair y z) →
+      ∀ r, l.foldl (fun acc e => some (poolJoin acc e)) (some a) = some r → classifyAsFound r = .unknown := by
+    intro l
+    induction l with
+    | nil =>
+      intro a x ha r hr
+      simp at hr; subst hr
+      rcases ha with rfl | ⟨y, z, rfl⟩ <;> rfl
+    | cons b bs ih =>
+      intro a x _ r hr
+      simp only [List.foldl_cons, poolJoin] at hr
+      exact ih (.pair a b) a (Or.inr ⟨a, b, rfl⟩) r hr
+  cases errs with
+  | nil => simp [poolWait] at h
+  | cons b bs =>
+    simp only [poolWait, List.foldl_cons, poolJoin] at h
+    exact hfold bs (.wrap b) b (Or.inl rfl) r h
+
+example : classifyAsFound (Err.wrap (.wrap (.tss [(3 : Nat)] true))) = .unknown ∧
+    classify (Err.wrap (.wrap (.tss [(3 : Nat)] true))) = .tss [3] true := by decide
 
 end Property
 end Sygma.C11
